@@ -1,0 +1,279 @@
+//go:build verif
+
+// Contracts for the deductive verification in /verif (comment-only; no declarations).
+// The scanner's state functions are specified row by row from the RFC 8259 grammar (the byte-level
+// push-down automaton of /verif/DESIGN.md, Appendix B): for every byte value, which state follows,
+// which opcode is reported, and how the nesting stack changes. Nothing here is derived from the code.
+
+package json
+
+//@ define isSp(c byte) bool = c == ' ' || c == '\t' || c == '\r' || c == '\n'
+//@ define isDigit(c byte) bool = '0' <= c && c <= '9'
+//@ define is19(c byte) bool = '1' <= c && c <= '9'
+//@ define isHex(c byte) bool = ('0' <= c && c <= '9') || ('a' <= c && c <= 'f') || ('A' <= c && c <= 'F')
+//@ define depth(s *scanner) int = len(s.parseState)
+//@ define top(s *scanner) int = s.parseState[len(s.parseState) - 1]
+// the stack is exactly as before (same header, so same elements)
+//@ define sameStack(s *scanner, t []int) bool = s.parseState == t
+// what an error transition does: dead state, error recorded, stack and endTop untouched
+//@ define errored(s *scanner, r int) bool = r == scanError && s.step == stateError && s.err != nil
+
+//@ func isSpace
+//@   modifies nothing
+//@   ensures[C16] ws: result <==> isSp(c)
+
+//@ func quoteChar
+//@   trusted formats an error message only (calls strconv.Quote)
+//@   modifies nothing
+
+//@ func (*scanner).error
+//@   requires recv: s != nil
+//@   modifies s.step, s.err
+//@   ensures[C16] dead: errored(s, result)
+
+//@ func stateError
+//@   modifies nothing
+//@   ensures[C16] dead: result == scanError
+
+//@ func (*scanner).reset
+//@   requires recv: s != nil
+//@   modifies s.step, s.parseState, s.err, s.endTop
+//@   ensures[C09,C16] initial: s.step == stateBeginValue && len(s.parseState) == 0 && s.err == nil && !s.endTop
+
+//@ func (*scanner).pushParseState
+//@   requires recv: s != nil
+//@   modifies s.step, s.err, s.parseState, elems(s.parseState)
+//@   let n = old(len(s.parseState))
+//@   ensures[C16] pushed: len(s.parseState) == n + 1 && s.parseState[n] == newParseState && (forall j int :: 0 <= j && j < n ==> s.parseState[j] == old(s.parseState[j]))
+//@   ensures[C16] within-depth: n + 1 <= 10000 ==> result == successState && s.step == old(s.step) && s.err == old(s.err)
+//@   ensures[C16] too-deep: n + 1 > 10000 ==> errored(s, result)
+
+//@ func (*scanner).popParseState
+//@   requires recv: s != nil && len(s.parseState) > 0
+//@   modifies s.step, s.endTop, s.parseState
+//@   let n = old(len(s.parseState))
+//@   ensures[C16] popped: len(s.parseState) == n - 1 && (forall j int :: 0 <= j && j < n - 1 ==> s.parseState[j] == old(s.parseState[j]))
+//@   ensures[C16] value-complete: n == 1 ==> s.step == stateEndTop && s.endTop
+//@   ensures[C16] inside: n > 1 ==> s.step == stateEndValue && s.endTop == old(s.endTop)
+
+// V: a value is expected
+//@ func stateBeginValue
+//@   requires recv: s != nil
+//@   modifies s.step, s.err, s.parseState, elems(s.parseState)
+//@   let n = old(len(s.parseState))
+//@   ensures[C16] space: isSp(c) ==> result == scanSkipSpace && s.step == old(s.step) && sameStack(s, old(s.parseState)) && s.err == old(s.err)
+//@   ensures[C16] object: c == '{' && n + 1 <= 10000 ==> result == scanBeginObject && s.step == stateBeginStringOrEmpty && len(s.parseState) == n + 1 && s.parseState[n] == parseObjectKey
+//@   ensures[C16] array: c == '[' && n + 1 <= 10000 ==> result == scanBeginArray && s.step == stateBeginValueOrEmpty && len(s.parseState) == n + 1 && s.parseState[n] == parseArrayValue
+//@   ensures[C16] nesting-limit: (c == '{' || c == '[') && n + 1 > 10000 ==> errored(s, result)
+//@   ensures[C16] push-keeps-rest: (c == '{' || c == '[') ==> forall j int :: 0 <= j && j < n ==> s.parseState[j] == old(s.parseState[j])
+//@   ensures[C16] string: c == '"' ==> result == scanBeginLiteral && s.step == stateInString
+//@   ensures[C16] minus: c == '-' ==> result == scanBeginLiteral && s.step == stateNeg
+//@   ensures[C16] zero: c == '0' ==> result == scanBeginLiteral && s.step == state0
+//@   ensures[C16] nonzero-digit: is19(c) ==> result == scanBeginLiteral && s.step == state1
+//@   ensures[C16] true-literal: c == 't' ==> result == scanBeginLiteral && s.step == stateT
+//@   ensures[C16] false-literal: c == 'f' ==> result == scanBeginLiteral && s.step == stateF
+//@   ensures[C16] null-literal: c == 'n' ==> result == scanBeginLiteral && s.step == stateN
+//@   ensures[C16] anything-else: !isSp(c) && c != '{' && c != '[' && c != '"' && c != '-' && !isDigit(c) && c != 't' && c != 'f' && c != 'n' ==> errored(s, result)
+//@   ensures[C16] scalars-keep-stack: c != '{' && c != '[' ==> sameStack(s, old(s.parseState))
+
+// VE: just after '['
+//@ func stateBeginValueOrEmpty
+//@   requires recv: s != nil && len(s.parseState) > 0
+//@   modifies s.step, s.endTop, s.err, s.parseState, elems(s.parseState)
+//@   ensures[C16] space: isSp(c) ==> result == scanSkipSpace && s.step == old(s.step) && sameStack(s, old(s.parseState))
+//@   ensures[C16] empty-array: c == ']' && old(top(s)) == parseArrayValue ==> result == scanEndArray && len(s.parseState) == old(len(s.parseState)) - 1
+//@   ensures[C16] otherwise-a-value: !isSp(c) && c != ']' && (c == '"' || c == '-' || isDigit(c) || c == 't' || c == 'f' || c == 'n') ==> result == scanBeginLiteral && sameStack(s, old(s.parseState))
+//@   ensures[C16] no-leading-comma: c == ',' || c == '}' || c == ':' ==> (c == ']' || errored(s, result))
+
+// KE: just after '{'
+//@ func stateBeginStringOrEmpty
+//@   requires recv: s != nil && len(s.parseState) > 0
+//@   modifies s.step, s.endTop, s.err, s.parseState, elems(s.parseState)
+//@   ensures[C16] space: isSp(c) ==> result == scanSkipSpace && s.step == old(s.step) && sameStack(s, old(s.parseState))
+//@   ensures[C16] empty-object: c == '}' ==> result == scanEndObject && len(s.parseState) == old(len(s.parseState)) - 1
+//@   ensures[C16] key: c == '"' ==> result == scanBeginLiteral && s.step == stateInString && sameStack(s, old(s.parseState))
+//@   ensures[C16] anything-else: !isSp(c) && c != '}' && c != '"' ==> errored(s, result)
+
+// Kx: after ',' inside an object: only a key may follow
+//@ func stateBeginString
+//@   requires recv: s != nil
+//@   modifies s.step, s.err
+//@   ensures[C16] space: isSp(c) ==> result == scanSkipSpace && s.step == old(s.step)
+//@   ensures[C16] key: c == '"' ==> result == scanBeginLiteral && s.step == stateInString
+//@   ensures[C16] anything-else: !isSp(c) && c != '"' ==> errored(s, result)
+
+// AV: a value has just ended
+//@ func stateEndValue
+//@   requires recv: s != nil
+//@   modifies s.step, s.endTop, s.err, s.parseState, elems(s.parseState)
+//@   let n = old(len(s.parseState))
+//@   let tp = old(top(s))
+//@   ensures[C16] top-level-done: n == 0 ==> result == scanEnd && s.endTop && len(s.parseState) == 0 && (isSp(c) ==> s.step == stateEndTop && s.err == old(s.err)) && (!isSp(c) ==> s.step == stateError && s.err != nil)
+//@   ensures[C16] space: n > 0 && isSp(c) ==> result == scanSkipSpace && s.step == stateEndValue && sameStack(s, old(s.parseState)) && s.parseState[n - 1] == tp
+//@   ensures[C16] colon-after-key: n > 0 && tp == parseObjectKey && c == ':' ==> result == scanObjectKey && s.step == stateBeginValue && len(s.parseState) == n && s.parseState[n - 1] == parseObjectValue
+//@   ensures[C16] key-needs-colon: n > 0 && tp == parseObjectKey && c != ':' && !isSp(c) ==> errored(s, result)
+//@   ensures[C16] comma-in-object: n > 0 && tp == parseObjectValue && c == ',' ==> result == scanObjectValue && s.step == stateBeginString && len(s.parseState) == n && s.parseState[n - 1] == parseObjectKey
+//@   ensures[C16] close-object: n > 0 && tp == parseObjectValue && c == '}' ==> result == scanEndObject && len(s.parseState) == n - 1 && (n == 1 ==> s.step == stateEndTop && s.endTop) && (n > 1 ==> s.step == stateEndValue)
+//@   ensures[C16] object-value-else: n > 0 && tp == parseObjectValue && c != ',' && c != '}' && !isSp(c) ==> errored(s, result)
+//@   ensures[C16] comma-in-array: n > 0 && tp == parseArrayValue && c == ',' ==> result == scanArrayValue && s.step == stateBeginValue && sameStack(s, old(s.parseState))
+//@   ensures[C16] close-array: n > 0 && tp == parseArrayValue && c == ']' ==> result == scanEndArray && len(s.parseState) == n - 1 && (n == 1 ==> s.step == stateEndTop && s.endTop) && (n > 1 ==> s.step == stateEndValue)
+//@   ensures[C16] array-else: n > 0 && tp == parseArrayValue && c != ',' && c != ']' && !isSp(c) ==> errored(s, result)
+//@   ensures[C16] unknown-stack-entry: n > 0 && tp != parseObjectKey && tp != parseObjectValue && tp != parseArrayValue && !isSp(c) ==> errored(s, result)
+//@   ensures[C16] rest-of-stack: forall j int :: 0 <= j && j < n - 1 ==> s.parseState[j] == old(s.parseState[j])
+
+// Done: the top-level value is complete; only white space may follow
+//@ func stateEndTop
+//@   requires recv: s != nil
+//@   modifies s.step, s.err
+//@   ensures[C16] end: result == scanEnd
+//@   ensures[C16] space: isSp(c) ==> s.step == old(s.step) && s.err == old(s.err)
+//@   ensures[C16] trailing-data: !isSp(c) ==> s.step == stateError && s.err != nil
+
+// S, Es, U1..U4: inside a string
+//@ func stateInString
+//@   requires recv: s != nil
+//@   modifies s.step, s.err
+//@   ensures[C16] closing-quote: c == '"' ==> result == scanContinue && s.step == stateEndValue
+//@   ensures[C16] escape: c == '\\' ==> result == scanContinue && s.step == stateInStringEsc
+//@   ensures[C16] control-byte: c < 32 ==> errored(s, result)
+//@   ensures[C16] ordinary-byte: c >= 32 && c != '"' && c != '\\' ==> result == scanContinue && s.step == old(s.step) && s.err == old(s.err)
+
+//@ func stateInStringEsc
+//@   requires recv: s != nil
+//@   modifies s.step, s.err
+//@   ensures[C16] two-character-escape: c == 'b' || c == 'f' || c == 'n' || c == 'r' || c == 't' || c == '\\' || c == '/' || c == '"' ==> result == scanContinue && s.step == stateInString
+//@   ensures[C16] unicode-escape: c == 'u' ==> result == scanContinue && s.step == stateInStringEscU
+//@   ensures[C16] anything-else: c != 'b' && c != 'f' && c != 'n' && c != 'r' && c != 't' && c != '\\' && c != '/' && c != '"' && c != 'u' ==> errored(s, result)
+
+//@ func stateInStringEscU
+//@   requires recv: s != nil
+//@   modifies s.step, s.err
+//@   ensures[C16] hex: isHex(c) ==> result == scanContinue && s.step == stateInStringEscU1
+//@   ensures[C16] not-hex: !isHex(c) ==> errored(s, result)
+
+//@ func stateInStringEscU1
+//@   requires recv: s != nil
+//@   modifies s.step, s.err
+//@   ensures[C16] hex: isHex(c) ==> result == scanContinue && s.step == stateInStringEscU12
+//@   ensures[C16] not-hex: !isHex(c) ==> errored(s, result)
+
+//@ func stateInStringEscU12
+//@   requires recv: s != nil
+//@   modifies s.step, s.err
+//@   ensures[C16] hex: isHex(c) ==> result == scanContinue && s.step == stateInStringEscU123
+//@   ensures[C16] not-hex: !isHex(c) ==> errored(s, result)
+
+//@ func stateInStringEscU123
+//@   requires recv: s != nil
+//@   modifies s.step, s.err
+//@   ensures[C16] hex: isHex(c) ==> result == scanContinue && s.step == stateInString
+//@   ensures[C16] not-hex: !isHex(c) ==> errored(s, result)
+
+// Ng, Z, I, D, Fr, X, Xs, Xd: numbers
+//@ func stateNeg
+//@   requires recv: s != nil
+//@   modifies s.step, s.err
+//@   ensures[C16] zero: c == '0' ==> result == scanContinue && s.step == state0
+//@   ensures[C16] nonzero: is19(c) ==> result == scanContinue && s.step == state1
+//@   ensures[C16] bare-minus: !isDigit(c) ==> errored(s, result)
+
+//@ func state1
+//@   requires recv: s != nil
+//@   modifies s.step, s.endTop, s.err, s.parseState, elems(s.parseState)
+//@   ensures[C16] digit: isDigit(c) ==> result == scanContinue && s.step == state1 && sameStack(s, old(s.parseState))
+//@   ensures[C16] fraction: c == '.' ==> result == scanContinue && s.step == stateDot && sameStack(s, old(s.parseState))
+//@   ensures[C16] exponent: c == 'e' || c == 'E' ==> result == scanContinue && s.step == stateE && sameStack(s, old(s.parseState))
+//@   ensures[C16] ends-top-level: !isDigit(c) && c != '.' && c != 'e' && c != 'E' && old(len(s.parseState)) == 0 ==> result == scanEnd && s.endTop
+
+//@ func state0
+//@   requires recv: s != nil
+//@   modifies s.step, s.endTop, s.err, s.parseState, elems(s.parseState)
+//@   ensures[C16] fraction: c == '.' ==> result == scanContinue && s.step == stateDot && sameStack(s, old(s.parseState))
+//@   ensures[C16] exponent: c == 'e' || c == 'E' ==> result == scanContinue && s.step == stateE && sameStack(s, old(s.parseState))
+//@   ensures[C16] no-leading-zero: isDigit(c) && old(len(s.parseState)) == 0 ==> result == scanEnd && s.step == stateError && s.err != nil
+//@   ensures[C16] no-leading-zero-nested: isDigit(c) && old(len(s.parseState)) > 0 ==> errored(s, result)
+//@   ensures[C16] ends-top-level: c != '.' && c != 'e' && c != 'E' && old(len(s.parseState)) == 0 ==> result == scanEnd && s.endTop
+
+//@ func stateDot
+//@   requires recv: s != nil
+//@   modifies s.step, s.err
+//@   ensures[C16] digit: isDigit(c) ==> result == scanContinue && s.step == stateDot0
+//@   ensures[C16] digit-required: !isDigit(c) ==> errored(s, result)
+
+//@ func stateDot0
+//@   requires recv: s != nil
+//@   modifies s.step, s.endTop, s.err, s.parseState, elems(s.parseState)
+//@   ensures[C16] digit: isDigit(c) ==> result == scanContinue && s.step == old(s.step) && sameStack(s, old(s.parseState))
+//@   ensures[C16] exponent: c == 'e' || c == 'E' ==> result == scanContinue && s.step == stateE && sameStack(s, old(s.parseState))
+//@   ensures[C16] second-point: c == '.' && old(len(s.parseState)) > 0 ==> errored(s, result)
+
+//@ func stateE
+//@   requires recv: s != nil
+//@   modifies s.step, s.err
+//@   ensures[C16] sign: c == '+' || c == '-' ==> result == scanContinue && s.step == stateESign
+//@   ensures[C16] digit: isDigit(c) ==> result == scanContinue && s.step == stateE0
+//@   ensures[C16] digit-required: c != '+' && c != '-' && !isDigit(c) ==> errored(s, result)
+
+//@ func stateESign
+//@   requires recv: s != nil
+//@   modifies s.step, s.err
+//@   ensures[C16] digit: isDigit(c) ==> result == scanContinue && s.step == stateE0
+//@   ensures[C16] digit-required: !isDigit(c) ==> errored(s, result)
+
+//@ func stateE0
+//@   requires recv: s != nil
+//@   modifies s.step, s.endTop, s.err, s.parseState, elems(s.parseState)
+//@   ensures[C16] digit: isDigit(c) ==> result == scanContinue && s.step == old(s.step) && sameStack(s, old(s.parseState))
+//@   ensures[C16] no-second-exponent: (c == 'e' || c == 'E' || c == '.') && old(len(s.parseState)) > 0 ==> errored(s, result)
+
+// T1..T3, F1..F4, N1..N3: the three literal names
+//@ func stateT
+//@   requires recv: s != nil
+//@   modifies s.step, s.err
+//@   ensures[C16] next: c == 'r' ==> result == scanContinue && s.step == stateTr
+//@   ensures[C16] else: c != 'r' ==> errored(s, result)
+//@ func stateTr
+//@   requires recv: s != nil
+//@   modifies s.step, s.err
+//@   ensures[C16] next: c == 'u' ==> result == scanContinue && s.step == stateTru
+//@   ensures[C16] else: c != 'u' ==> errored(s, result)
+//@ func stateTru
+//@   requires recv: s != nil
+//@   modifies s.step, s.err
+//@   ensures[C16] next: c == 'e' ==> result == scanContinue && s.step == stateEndValue
+//@   ensures[C16] else: c != 'e' ==> errored(s, result)
+//@ func stateF
+//@   requires recv: s != nil
+//@   modifies s.step, s.err
+//@   ensures[C16] next: c == 'a' ==> result == scanContinue && s.step == stateFa
+//@   ensures[C16] else: c != 'a' ==> errored(s, result)
+//@ func stateFa
+//@   requires recv: s != nil
+//@   modifies s.step, s.err
+//@   ensures[C16] next: c == 'l' ==> result == scanContinue && s.step == stateFal
+//@   ensures[C16] else: c != 'l' ==> errored(s, result)
+//@ func stateFal
+//@   requires recv: s != nil
+//@   modifies s.step, s.err
+//@   ensures[C16] next: c == 's' ==> result == scanContinue && s.step == stateFals
+//@   ensures[C16] else: c != 's' ==> errored(s, result)
+//@ func stateFals
+//@   requires recv: s != nil
+//@   modifies s.step, s.err
+//@   ensures[C16] next: c == 'e' ==> result == scanContinue && s.step == stateEndValue
+//@   ensures[C16] else: c != 'e' ==> errored(s, result)
+//@ func stateN
+//@   requires recv: s != nil
+//@   modifies s.step, s.err
+//@   ensures[C16] next: c == 'u' ==> result == scanContinue && s.step == stateNu
+//@   ensures[C16] else: c != 'u' ==> errored(s, result)
+//@ func stateNu
+//@   requires recv: s != nil
+//@   modifies s.step, s.err
+//@   ensures[C16] next: c == 'l' ==> result == scanContinue && s.step == stateNul
+//@   ensures[C16] else: c != 'l' ==> errored(s, result)
+//@ func stateNul
+//@   requires recv: s != nil
+//@   modifies s.step, s.err
+//@   ensures[C16] next: c == 'l' ==> result == scanContinue && s.step == stateEndValue
+//@   ensures[C16] else: c != 'l' ==> errored(s, result)
